@@ -45,6 +45,169 @@ func ruleC19(r *Report) {
 	checkStoreFailureReplies(r, p)
 	r.Rule("C19.whole-password", "the password hashed when a user is stored and the password compared at login are the client's string itself, whole (a sub-range on one side lets a password that was never the user's pass)", 1)
 	safely(r, func() { checkWholePassword(r, p, "C19.whole-password") })
+	r.Rule("C19.current-password", "the stored hash is that of the password the last put carried: the earlier hash is kept only when the request carried no password (PlaintextPassword == nil), and whether the carried password is hashed depends on nothing about it but its presence", 2)
+	safely(r, func() { checkCurrentPassword(r, p, "C19.current-password") })
+}
+
+// chainConds: the alternatives of the condition under which block b of fn executes, one per call chain: fn's own path
+// condition, conjoined (for an unexported function, up to the given depth) with the condition of each call site.
+func chainConds(a *Analysis, fn *ssa.Function, b *ssa.BasicBlock, depth int) []*bddNode {
+	p := a.P
+	own := a.Ctx(fn).Cond(b)
+	if depth == 0 || fn.Object() == nil || fn.Object().Exported() {
+		return []*bddNode{own}
+	}
+	sites := p.CallersOf(fn)
+	if len(sites) == 0 {
+		return []*bddNode{own}
+	}
+	var out []*bddNode
+	for _, cs := range sites {
+		call, ok := cs.Instr.(*ssa.Call)
+		if !ok || cs.Shift != 0 || call.Call.StaticCallee() != fn {
+			out = append(out, own)
+			continue
+		}
+		local := a.Ctx(cs.Caller).inlineCtx(fn, call.Call.Args, call).Cond(b)
+		for _, up := range chainConds(a, cs.Caller, call.Block(), depth-1) {
+			out = append(out, a.B.And(local, up))
+		}
+	}
+	return out
+}
+
+// overriddenWhenCarried: the earlier hash is copied first and overridden afterwards: in fn, every store-write (an
+// invoke of Put) that is reached with a carried password is reached through the block that stores the result of
+// GenerateFromPassword into the record (condition of the Put, with the password present, implies that block's).
+func overriddenWhenCarried(a *Analysis, fn *ssa.Function, impliedNil func(*bddNode, bool) bool) bool {
+	B := a.B
+	fc := a.Ctx(fn)
+	var gens, puts []*ssa.BasicBlock
+	for _, b := range fn.Blocks {
+		for _, in := range b.Instrs {
+			switch x := in.(type) {
+			case *ssa.Store:
+				fa, ok := x.Addr.(*ssa.FieldAddr)
+				if !ok || fieldName(fa.X.Type(), fa.Field) != "HashedPassword" {
+					continue
+				}
+				if ex, ok := x.Val.(*ssa.Extract); ok && ex.Index == 0 {
+					if c, ok := ex.Tuple.(*ssa.Call); ok && calleeIs(c, "golang.org/x/crypto/bcrypt.GenerateFromPassword") {
+						gens = append(gens, b)
+					}
+				}
+			case *ssa.Call:
+				if x.Call.IsInvoke() && x.Call.Method.Name() == "Put" {
+					puts = append(puts, b)
+				}
+			}
+		}
+	}
+	if len(gens) != 1 || len(puts) == 0 {
+		return false
+	}
+	carried := B.False
+	for _, name := range B.names {
+		if strings.HasPrefix(name, "isnil(") && strings.HasSuffix(name, ".PlaintextPassword)") {
+			carried = B.Or(carried, B.Not(B.Var(name)))
+		}
+	}
+	if carried == B.False {
+		return false
+	}
+	for _, pb := range puts {
+		if !B.Implies(B.And(fc.Cond(pb), carried), fc.Cond(gens[0])) {
+			return false
+		}
+	}
+	_ = impliedNil
+	return true
+}
+
+// checkCurrentPassword: C19.current-password. "Login succeeds only with the user's current password": a put that
+// carries a password replaces the hash. (a) The copy of the earlier record's hash into the record being stored executes
+// only under isnil(<record>.PlaintextPassword); (b) the condition under which bcrypt.GenerateFromPassword runs mentions
+// the carried password only through that nil test.
+func checkCurrentPassword(r *Report, p *Prog, rule string) {
+	a := NewAnalysis(p)
+	B := a.B
+	isNilPw := func(name string) bool {
+		return strings.HasPrefix(name, "isnil(") && strings.HasSuffix(name, ".PlaintextPassword)")
+	}
+	impliedNil := func(f *bddNode, want bool) bool {
+		for _, name := range B.names {
+			if !isNilPw(name) {
+				continue
+			}
+			v := B.Var(name)
+			if !want {
+				v = B.Not(v)
+			}
+			if B.Implies(f, v) {
+				return true
+			}
+		}
+		return false
+	}
+	nKeep, nGen := 0, 0
+	for _, fn := range p.modFns {
+		if !p.InLibrary(fn) || !inPkg(fn, idpPkgPath) {
+			continue
+		}
+		for _, b := range fn.Blocks {
+			for _, in := range b.Instrs {
+				switch x := in.(type) {
+				case *ssa.Store:
+					fa, ok := x.Addr.(*ssa.FieldAddr)
+					if !ok || !typeIs(fa.X.Type(), idpPkgPath, "User") || fieldName(fa.X.Type(), fa.Field) != "HashedPassword" {
+						continue
+					}
+					ld, ok := x.Val.(*ssa.UnOp)
+					if !ok || ld.Op != token.MUL {
+						continue
+					}
+					src, ok := ld.X.(*ssa.FieldAddr)
+					if !ok || !typeIs(src.X.Type(), idpPkgPath, "User") || fieldName(src.X.Type(), src.Field) != "HashedPassword" {
+						continue
+					}
+					nKeep++
+					r.Fn(p.FnName(fn))
+					bad := ""
+					for _, alt := range chainConds(a, fn, b, 3) {
+						if !impliedNil(alt, true) {
+							bad = B.String(alt)
+							break
+						}
+					}
+					if bad != "" && overriddenWhenCarried(a, fn, impliedNil) {
+						bad = ""
+					}
+					r.Check(bad == "", rule, p.FnName(fn)+": the earlier hash is kept only when the request carried no password", p.InstrPos(in), "path condition implies PlaintextPassword == nil on every call chain", "the stored hash of the earlier record is kept under "+bad+", which does not imply that the request carried no password: a put with such a password leaves the former password valid")
+				case *ssa.Call:
+					if !calleeIs(x, "golang.org/x/crypto/bcrypt.GenerateFromPassword") {
+						continue
+					}
+					nGen++
+					r.Fn(p.FnName(fn))
+					bad := ""
+					for _, alt := range chainConds(a, fn, b, 3) {
+						for _, name := range B.Support(alt) {
+							if strings.Contains(name, "PlaintextPassword") && !isNilPw(name) {
+								bad = firstNonEmpty(bad, "the hashing step runs under a condition on the password's content ("+name+")")
+							}
+						}
+					}
+					r.Check(bad == "", rule, p.FnName(fn)+": a carried password is hashed whatever it is", p.InstrPos(in), "the condition of GenerateFromPassword mentions the password only through PlaintextPassword != nil", bad+": a put carrying a password for which it is false stores no new hash, and the former password stays valid")
+				}
+			}
+		}
+	}
+	if nKeep == 0 {
+		r.OK(rule, "no keep-on-update copy of the stored hash", "-", "the stored hash is never carried over")
+	}
+	if nGen == 0 {
+		r.Undecided(rule, "hashing of the carried password", "-", "no call of bcrypt.GenerateFromPassword found in samlidp")
+	}
 }
 
 func storeCallKind(c *ssa.CallCommon) string {
